@@ -62,6 +62,14 @@ def gen_repl_case(rng):
         if r < 0.15: oX.append(list(pX[k]))
         elif r < 0.3: oX.append(list(pX[rng.randrange(n)]))
         elif r < 0.4 and oX: oX.append(list(oX[rng.randrange(len(oX))]))
+        elif r < 0.5:
+            # almost a copy (of its target, of another member, of an earlier trial): one coordinate differs by an ulp or by 1e-17 .. 1e-12.
+            # Not a duplicate: only exact copies are refused
+            src = list(rng.choice([pX[k], pX[rng.randrange(n)]] + ([oX[rng.randrange(len(oX))]] if oX else [])))
+            j = rng.randrange(v); x = src[j]
+            d = rng.choice(["ulp", 1e-17, 3e-17, 1e-16, 1e-12])
+            src[j] = (float(np.nextafter(x, 10.0)) if x != 0.0 else 1e-17) if d == "ulp" else x + d if x + d != x else float(np.nextafter(x, 10.0))
+            oX.append(src)
         else: oX.append([float(rng.randint(0, 2)) + 0.5 if grid else rng.random() for _ in range(v)])
     mode = rng.choice(["mixed", "mixed", "allfeas", "allinfeas"]) if constr else "unconstrained"
     def gval():
@@ -161,7 +169,7 @@ class C02(Check):
     RULE = ("ImprovementReplacement().do(problem, pop, off) (also return_indices / inplace) on parent/offspring populations with grid values (ties in F and CV, "
             "CV = 0 vs tiny positive), offspring equal to own parent / another member / an earlier offspring, unconstrained / mixed / all-feasible / "
             "all-infeasible; in 30% of the cases the operator object has served an unconstrained / all-feasible population before; 8% of the cases are whole DE runs (6 generations by ask / evaluate / tell, mostly constrained, plateau-valued or constant objectives) whose every generation is "
-            "judged slot by slot and compared with the model's de_step; survivors identified by object identity; non-trivial = at least one tie, duplicate or feasibility change; distinct by hash")
+            "judged slot by slot and compared with the model's de_step; survivors identified by object identity; non-trivial = at least one tie, duplicate or feasibility change; distinct by hash; one trial in ten is almost a copy (one coordinate an ulp .. 1e-12 away) of its target, another member or an earlier trial")
     ASSUMPTIONS = ["pymoo's duplicate test (Euclidean distance <= 0) is modelled as equality of decision vectors (differs only under underflow of squared differences)",
                    "CV >= 0 and feasible = (CV <= 0) are taken from pymoo's Individual and used as hypotheses of best_never_worse"]
     QUICK_N = 500
